@@ -326,6 +326,74 @@ func init() {
 
 // ---- C13: Reset
 
+// genC13Directed: the base histories of the stall sweep. A productive round (facts and a
+// self-join rule deriving "captain") is followed, after Reset, by rounds that derive nothing
+// themselves and whose policies and queries ask about "captain"; the sweep then places the
+// deadline at every scheduler step of the whole history, without draining left-behind goroutines.
+func genC13Directed(r *rand.Rand, run int) *vm.Plan {
+	h := newHist(r, 1, false)
+	g := h.g
+	key := h.issuers[0]
+	auth := g.BlockFor(nil, 2, 1, 1)
+	t := h.build(key, auth, nil)
+	if r.Intn(2) == 0 {
+		t = h.attenuate(t, g.BlockFor(auth.Facts, 1, 1, 1))
+	}
+	lim := &vm.Lim{MaxDurNs: 2e6}
+	az := h.add(vm.Op{K: "az", A: t, KS: &vm.KeySel{Key: key}, Lim: lim, Out: h.slot()})
+	v := ref.Var
+	panel := []ref.Rule{
+		{Head: ref.Pred{Name: "captain", Terms: []ref.Term{v("m")}}, Body: []ref.Pred{{Name: "captain", Terms: []ref.Term{v("m")}}}},
+		{Head: ref.Pred{Name: "squad", Terms: []ref.Term{v("m")}}, Body: []ref.Pred{{Name: "squad", Terms: []ref.Term{v("m")}}}},
+	}
+	allowAll := ref.Policy{Allow: true, Queries: []ref.Rule{gen.TrueQuery()}}
+	var twins []vm.Op
+	rounds := 2 + r.Intn(2)
+	for rd := 0; rd < rounds; rd++ {
+		var content ref.Authz
+		if rd%2 == 0 {
+			n := 2 + r.Intn(3)
+			for i := 0; i < n; i++ {
+				content.Facts = append(content.Facts, ref.Pred{Name: "squad", Terms: []ref.Term{ref.Int(int64(i))}})
+			}
+			body := []ref.Pred{{Name: "squad", Terms: []ref.Term{v("a")}}, {Name: "squad", Terms: []ref.Term{v("b")}}}
+			if run%3 == 0 {
+				body = append(body, ref.Pred{Name: "squad", Terms: []ref.Term{v("c")}})
+			}
+			content.Rules = []ref.Rule{{Head: ref.Pred{Name: "captain", Terms: []ref.Term{v("a")}}, Body: body}}
+			if run%2 == 0 { // a second rule, so that the first is not the last of the iteration
+				content.Rules = append(content.Rules, ref.Rule{Head: ref.Pred{Name: "squad", Terms: []ref.Term{ref.Int(9)}}, Body: []ref.Pred{{Name: "captain", Terms: []ref.Term{ref.Int(0)}}}})
+			}
+			content.Policies = []ref.Policy{allowAll}
+		} else {
+			content.Policies = []ref.Policy{
+				{Allow: true, Queries: []ref.Rule{{Head: ref.Pred{Name: "query"}, Body: []ref.Pred{{Name: "captain", Terms: []ref.Term{ref.Int(int64(r.Intn(3)))}}}}}},
+				{Allow: false, Queries: []ref.Rule{gen.TrueQuery()}},
+			}
+			content.Facts = g.Facts(r.Intn(2))
+		}
+		name := fmt.Sprintf("round%d", rd)
+		h.add(vm.Op{K: "azadd", A: az, Az: &content})
+		h.add(vm.Op{K: "azauth", A: az, Qs: panel, Name: name})
+		// the fresh twins run after the whole history, so that whatever a round leaves behind
+		// is still around when the next round of the long-lived authorizer starts
+		twins = append(twins, vm.Op{K: "verify", A: t, KS: &vm.KeySel{Key: key}, Az: &content, Qs: panel, Lim: lim, Name: name})
+		h.add(vm.Op{K: "azreset", A: az})
+	}
+	for _, tw := range twins {
+		h.add(tw)
+	}
+	h.p.Note = "directed"
+	return h.p
+}
+
+func c13SweepN(tier string) int {
+	if tier == "thorough" {
+		return 120
+	}
+	return 12
+}
+
 func genC13(r *rand.Rand, run int, tier string) *vm.Plan {
 	h := newHist(r, 1, false)
 	g := h.g
@@ -342,6 +410,10 @@ func genC13(r *rand.Rand, run int, tier string) *vm.Plan {
 		lim.MaxFacts = 3 + r.Intn(10)
 	}
 	az := h.add(vm.Op{K: "az", A: t, KS: &vm.KeySel{Key: key}, Lim: lim, Out: h.slot()})
+	// the fresh twins run either right after their round or (half of the plans) after the whole
+	// history, so that whatever a round leaves behind is still around when the next round starts
+	lateTwins := r.Intn(2) == 0
+	var twins []vm.Op
 	rounds := 2 + r.Intn(4)
 	var prev ref.Authz
 	for rd := 0; rd < rounds; rd++ {
@@ -351,6 +423,21 @@ func genC13(r *rand.Rand, run int, tier string) *vm.Plan {
 			content = g.AuthzFor(append(append([]ref.Pred{}, prev.Facts...), auth.Facts...), 0, 1, 2, 2)
 		} else {
 			content = g.AuthzFor(auth.Facts, 4, 2, 2, 3)
+		}
+		if r.Intn(4) == 0 {
+			// a productive round: n facts and a self-join rule deriving a predicate that the NEXT
+			// round's policies and queries ask about (and that the next round does not derive itself)
+			n := 2 + r.Intn(3)
+			for i := 0; i < n; i++ {
+				content.Facts = append(content.Facts, ref.Pred{Name: "squad", Terms: []ref.Term{ref.Int(int64(i))}})
+			}
+			body := []ref.Pred{{Name: "squad", Terms: []ref.Term{ref.Var("a")}}, {Name: "squad", Terms: []ref.Term{ref.Var("b")}}}
+			if r.Intn(3) == 0 {
+				body = append(body, ref.Pred{Name: "squad", Terms: []ref.Term{ref.Var("c")}})
+			}
+			content.Rules = append(content.Rules, ref.Rule{Head: ref.Pred{Name: "captain", Terms: []ref.Term{ref.Var("a")}}, Body: body})
+		} else if rd > 0 && r.Intn(3) == 0 {
+			content.Policies = append([]ref.Policy{{Allow: true, Queries: []ref.Rule{{Head: ref.Pred{Name: "query"}, Body: []ref.Pred{{Name: "captain", Terms: []ref.Term{ref.Int(int64(r.Intn(4)))}}}}}}}, content.Policies...)
 		}
 		// each round brings its own subset of the ambient facts
 		have := map[string]bool{}
@@ -366,6 +453,18 @@ func genC13(r *rand.Rand, run int, tier string) *vm.Plan {
 		for i := r.Intn(3); i > 0; i-- {
 			qs = append(qs, g.QueryFrom(append(append([]ref.Pred{}, prev.Facts...), content.Facts...)))
 		}
+		// and the whole set of facts the round can see, one query per predicate signature
+		for _, sg := range g.Sigs {
+			p := ref.Pred{Name: sg.Name}
+			for i := range sg.Kinds {
+				p.Terms = append(p.Terms, ref.Var(fmt.Sprintf("a%d", i)))
+			}
+			qs = append(qs, ref.Rule{Head: p, Body: []ref.Pred{p}})
+		}
+		for _, n := range []string{"captain", "squad"} {
+			p := ref.Pred{Name: n, Terms: []ref.Term{ref.Var("m")}}
+			qs = append(qs, ref.Rule{Head: p, Body: []ref.Pred{p}})
+		}
 		name := fmt.Sprintf("round%d", rd)
 		h.add(vm.Op{K: "azadd", A: az, Az: &content})
 		if r.Intn(7) == 0 { // a round that is abandoned before it is evaluated
@@ -373,15 +472,24 @@ func genC13(r *rand.Rand, run int, tier string) *vm.Plan {
 			prev = content
 			continue
 		}
+		var twin vm.Op
 		if r.Intn(6) == 0 {
 			h.add(vm.Op{K: "azquery", A: az, Qs: qs, Name: name})
-			h.add(vm.Op{K: "verify", A: t, KS: &vm.KeySel{Key: key}, Az: &content, Qs: qs, Lim: lim, Name: name, Flags: []string{"noauth"}})
+			twin = vm.Op{K: "verify", A: t, KS: &vm.KeySel{Key: key}, Az: &content, Qs: qs, Lim: lim, Name: name, Flags: []string{"noauth"}}
 		} else {
 			h.add(vm.Op{K: "azauth", A: az, Qs: qs, Name: name})
-			h.add(vm.Op{K: "verify", A: t, KS: &vm.KeySel{Key: key}, Az: &content, Qs: qs, Lim: lim, Name: name})
+			twin = vm.Op{K: "verify", A: t, KS: &vm.KeySel{Key: key}, Az: &content, Qs: qs, Lim: lim, Name: name}
+		}
+		if lateTwins {
+			twins = append(twins, twin)
+		} else {
+			h.add(twin)
 		}
 		h.add(vm.Op{K: "azreset", A: az})
 		prev = content
+	}
+	for _, tw := range twins {
+		h.add(tw)
 	}
 	mode := []string{"calm", "calm", "order", "stall"}[r.Intn(4)]
 	schedule(r, h.p, mode, lim.MaxDurNs, 50+r.Intn(400))
@@ -392,7 +500,19 @@ func init() {
 	register(&Spec{
 		ID: "C13", Level: "exploration", Quick: 3000, Thorough: 300000,
 		Rule: "request histories on one long-lived authorizer: 2-5 rounds of (add facts/rules/checks/policies, Authorize or Query with a query panel, Reset), any outcome per round (allow, deny, no match, check failure, limit error, tape-forced timeout); half of the rounds carry checks/policies that only the PREVIOUS round's facts would satisfy. Fresh-twin agreement per round: the reused authorizer's verdict class, failed checks and query results equal those of an authorizer freshly created for the same token with the same options and only that round's content. non-trivial = a round after at least one Reset was compared with its fresh twin (distinct by plan hash)",
-		Gen: genC13,
+		Gen: func(r *rand.Rand, run int, tier string) *vm.Plan {
+			if run < c13SweepN(tier) { // base plans of the stall sweep are calm; the sweep adds the fault
+				if run%2 == 0 {
+					return genC13Directed(r, run)
+				}
+				p := genC13(r, run, tier)
+				p.Faults, p.Tape, p.Lazy = nil, nil, false
+				return p
+			}
+			return genC13(r, run, tier)
+		},
+		Sweep:  sweepStallsLazy,
+		SweepN: c13SweepN,
 		Oracles: func(m *vm.VM) []vm.Oracle {
 			return []vm.Oracle{vm.Common{Prop: "C13"}, vm.AgreeOracle{Prop: "C13", Invariant: "reset-leaks", Failed: true, Queries: true, SameAz: true}, vm.VerdictOracle{Prop: "C04"}}
 		},
